@@ -9,8 +9,10 @@ Next ==
     /\ l <= Len(Rec)
     /\ l' = l + 1
     /\ LET r == Rec[l] IN
-       IF OutcomeOK(r.outcome) THEN TRUE
-       ELSE PrintT(<<"FAIL", l, ToJson([clauses |-> <<r.outcome>>, case |-> r.case, msg |-> r.msg])>>)
+       /\ (OutcomeOK(r.outcome) \/ PrintT(<<"FAIL", l, ToJson([clauses |-> <<r.outcome>>, case |-> r.case, msg |-> r.msg])>>))
+       /\ (AllocOK(r.max_alloc_kib, r.input_len) \/
+           PrintT(<<"FAIL", l, ToJson([clauses |-> <<"alloc_out_of_proportion">>, case |-> r.case,
+                                       msg |-> ToString(r.max_alloc_kib) \o " KiB requested at once for an input of " \o ToString(r.input_len) \o " bytes"])>>))
 Spec == Init /\ [][Next]_vars
 AllConsumed ==
     \/ TLCGet("stats").diameter - 1 = Len(Rec)
